@@ -67,7 +67,11 @@ func H_Inv_Xform(p []int) {
 		vAssert(poly1.ContainsLine(line1) == poly2.ContainsLine(line2), "C12.xform-contains-line")
 	}
 	if t == 0 {
-		// the same through Move
+		// the same through Move, also for the ring given without its repeated closing vertex
+		open1 := NewPoly(v, nil, opts)
+		om := open1.Move(dx, dy)
+		vAssert(poly1.IntersectsLine(line1) == om.IntersectsLine(line2), "C12.move-unclosed-intersects")
+		vAssert(poly1.ContainsPoint(A) == om.ContainsPoint(A2), "C12.move-unclosed-contains-point")
 		pm, lm := poly1.Move(dx, dy), line1.Move(dx, dy)
 		vAssert(poly1.IntersectsLine(line1) == pm.IntersectsLine(lm), "C12.move-intersects")
 		vAssert(poly1.ContainsPoint(A) == pm.ContainsPoint(A2), "C12.move-contains-point")
